@@ -261,7 +261,14 @@ func runC20(t *testing.T, c StructCase) (v *h.Violation, info h.Info) {
 		// a bounded context: a shape that is wrongly accepted may name a secret the service does not have,
 		// and NewStore would then retry in real time for ever
 		nctx, ncancel := context.WithTimeout(context.Background(), 1500*time.Millisecond)
-		st, err = setec.NewStore(nctx, setec.StoreConfig{Client: svc, Structs: []setec.Struct{{Value: arg, Prefix: c.Prefix}}, PollInterval: -1, Logf: nolog})
+		scfg := setec.StoreConfig{Client: svc, Structs: []setec.Struct{{Value: arg, Prefix: c.Prefix}}, PollInterval: -1, Logf: nolog}
+		if c.Scribble && len(c.Fields)%2 == 0 {
+			// another source of declared secrets next to the struct: an unusable struct must still be rejected
+			scfg.Secrets = []string{"plain"}
+			wantNames = append(wantNames, "plain")
+			info.Class("struct-plus-listed-secret")
+		}
+		st, err = setec.NewStore(nctx, scfg)
 		ncancel()
 		if st != nil {
 			defer st.Close()
